@@ -184,9 +184,17 @@ def build(case):
                               "prescan_label": l1 if prescan_sees == "L1" else "dontcare"})
             else:
                 tpl, effective = FORMS[part["form"]]
-                emit_ascii(tpl % part["label"])
-                end = pos - (2 if wide else 1)
-                decls.append({"start": start, "end": end, "label": part["label"], "effective": effective, "vis": vis})
+                shown = part["label"]
+                rec = {"start": start, "label": part["label"], "effective": effective, "vis": vis}
+                if part.get("charref") and shown and ("&" not in tpl):
+                    # one character of the label written as a character reference: the tokenizer decodes it (tree
+                    # construction sees the label), the prescan works on raw bytes (it sees something else)
+                    k = shown.index("-") if "-" in shown else 0
+                    shown = shown[:k] + "&#x%x;" % ord(shown[k]) + shown[k + 1:]
+                    rec["prescan_label"] = shown
+                emit_ascii(tpl % shown)
+                rec["end"] = pos - (2 if wide else 1)
+                decls.append(rec)
             emit_ascii(suf)
         elif t == "body":
             b = bytes.fromhex(part["hex"])
@@ -461,7 +469,11 @@ def gen_doc(rng):
                 parts.append({"t": "decl", "form": rng.choice(sorted(DOUBLE_FORMS)), "place": place, "label": l1, "label2": l2})
                 _fill(rng, parts, rng.randint(0, 3))
                 continue
-        parts.append({"t": "decl", "form": form, "place": place, "label": label})
+        part = {"t": "decl", "form": form, "place": place, "label": label}
+        if rng.random() < 0.06 and form in ("charset_q", "charset_sq_uc", "charset_slash", "pragma", "pragma_rev", "pragma_rev_uc") \
+                and place not in ("attr", "attr_sq", "pi", "bang", "endtag_attrs"):
+            part["charref"] = True      # only in quoted attribute values
+        parts.append(part)
         _fill(rng, parts, rng.randint(0, 3))
     body = b"".join(rng.choice(BODY_PIECES) for _ in range(rng.randint(1, 12)))
     if rng.random() < 0.1:
